@@ -64,6 +64,8 @@ def plan(tier, seed):
     shards.append({'name': 'w3_b', 'kind': 'w3', 'n': n3, 'seed': seed * 1000 + 2})
     shards.append({'name': 'w2r', 'kind': 'w2r', 'n': 90 if tier == 'quick' else 1500,
                    'seed': seed * 1000 + 4})
+    shards.append({'name': 'seq', 'kind': 'seq', 'n': 250 if tier == 'quick' else 3000,
+                   'seed': seed * 1000 + 6})
     shards.append({'name': 'formula', 'kind': 'formula', 'nmax': 250 if tier == 'quick' else 1000,
                    'seed': seed * 1000 + 3})
     return shards
@@ -119,6 +121,16 @@ def materialise(case):
 
 def run_case(case, rec, ssj=None, views=None, decide=None):
     ssj = ssj or env.load()
+    if case['gen'] == 'seq':
+        from rv.checks import seq
+
+        def judge(df, call, rec_, step):
+            st = oracle.check_set_join(df, call, T.JOIN_MEASURE[call['api']], rec_, decide or DECIDE,
+                                       case=dict(case, step=step), tag='[sequence step %d] ' % step)
+            for k, v in st.items():
+                rec_.count(k, v)
+        seq.run_sequence(ssj, random.Random(case['seed']), rec, judge)
+        return {'required': 1}
     call = materialise(case)
     measure = T.JOIN_MEASURE[call['api']]
     key = None
@@ -214,6 +226,14 @@ def run_shard(shard, rec):
                             'comp_op': call['comp_op'], 'tok': call['tok'],
                             'left_values': T.column(call['ltable'], 'lattr')[:5],
                             'right_values': T.column(call['rtable'], 'rattr')[:5]}, limit=1)
+    elif kind == 'seq':
+        from rv.checks import seq
+        for i in range(shard['n']):
+            sd = shard['seed'] * 100000 + i
+            run_case({'gen': 'seq', 'seed': sd}, rec, ssj)
+            rec.case(sig=('seq', sd), nontrivial=True)
+        rec.sample({'workload': 'SEQ', 'note': 'joins in one process sharing a tokenizer object that is '
+                    're-configured through set_qval/set_padding/set_delim_set between calls'}, limit=1)
     elif kind == 'formula':
         formula_sweep(shard, rec, ssj, contracts)
     reach.stop()
